@@ -131,6 +131,7 @@ def step(versions, shapes, P, combos, checks, only=None, hexshapes=False, ota_mo
             msg = tuple(w.get(m, f) for f in C.FIELDS)
             ref = project(g.gw)
             sleeping_before = [nid for nid, n in ref["nodes"].items() if len(n["desired"]) > 0]
+            parked_before = {id(nid): len(n["queue"]) for nid, n in ref["nodes"].items()}
             local_time = env.timegm([env.local], {})
             try:
                 rule, expected = w.call(R.ref_step, version, ref, msg, g.gw.metric, local_time)
@@ -187,6 +188,20 @@ def step(versions, shapes, P, combos, checks, only=None, hexshapes=False, ota_mo
                     w.check(ok, f"emitted command not valid per the serial API[{tag}]")
                     w.check(w.or_(w.eq(em.node_id, msg[0]), w.eq(em.node_id, 255)),
                             f"emitted command addressed to another node[{tag}]")
+            if "wellformed" in checks:
+                # what was parked in this step will be emitted at a later wake-up: it must be a
+                # command the gateway may send (valid, to that node, never a presentation)
+                for nid, n in real["nodes"].items():
+                    for e in n["queue"][parked_before.get(id(nid), 0):]:
+                        C.check_canonical(w, e, f"parked command[{tag}]")
+                        em = w.new(Message, e)
+                        try:
+                            w.call(em.validate, version)
+                        except Exception:
+                            w.fail(f"parked command is not valid for version {version}[{tag}]")
+                        w.check(w.and_(w.eq(em.node_id, nid), w.ne(em.type, 0)),
+                                f"parked command is a presentation or addressed to another "
+                                f"node[{tag}]")
             if "sleep" in checks:
                 for e in out:
                     em = w.new(Message, e)
@@ -239,8 +254,9 @@ def build_for(prop, checks, tier, level_text, extra=None, versions=None, only=No
     q = tier == "quick"
     versions = versions or C.VERSIONS
     combos = [("sync", "serial"), ("async", "serial")]
-    shapes = [[], ["sleep", "awake"]] if q else [[], ["sleep", "awake"], ["awake", "sleep"],
-                                                  ["sleep2", "awake1"], ["sleep_old", "bare"]]
+    shapes = [[], ["sleep", "awake"], ["sleep_v21"]] if q else \
+        [[], ["sleep", "awake"], ["awake", "sleep"], ["sleep2", "awake1"], ["sleep_old", "bare"],
+         ["sleep_v21", "awake1"]]
     P = 1 if q else 2
     hs = [Harness("step-vs-reference", step(versions, shapes, P, combos, checks, only=only),
                   {"payload_atoms_max": P, "header_ints": "unbounded", "shapes": shapes,
